@@ -1,4 +1,5 @@
 """C14 — pen adapters preserve geometry."""
+from fontTools.pens.basePen import BasePen
 import math
 from fractions import Fraction as F
 from lib.ser import Ok, Err, res, Raw, Opt
@@ -322,6 +323,13 @@ def sweeps(tier, rng):
                         pts.append(((rng.randint(-400, 400), rng.randint(-400, 400)), "curve"))
                     else:
                         pts.append(((rng.randint(-400, 400), rng.randint(-400, 400)), "line"))
+                # some joins between two cubic segments sit exactly midway between their handles (what dropImpliedOnCurves removes)
+                n_ = len(pts)
+                for j in range(n_):
+                    if pts[j][1] == "curve" and pts[(j - 1) % n_][1] is None and pts[(j + 1) % n_][1] is None and rng.chance(40) and n_ >= 6:
+                        a_, b_ = pts[(j - 1) % n_][0], pts[(j + 1) % n_][0]
+                        a_ = (2 * (a_[0] // 2), 2 * (a_[1] // 2)); b_ = (2 * (b_[0] // 2), 2 * (b_[1] // 2))
+                        pts[(j - 1) % n_] = (a_, None); pts[(j + 1) % n_] = (b_, None); pts[j] = (((a_[0] + b_[0]) // 2, (a_[1] + b_[1]) // 2), "curve")
                 if rng.chance(35):
                     # a quadratic contour in the same glyph (glyf format 1 allows both kinds side by side), possibly ending on an off-curve point
                     pts = []
@@ -354,6 +362,11 @@ def sweeps(tier, rng):
                     rec = RecordingPen(); g2.draw(rec, None)
                     if fl(G.canon(rec.value)) != fl(want):
                         bad = "TTGlyphPen(dropImpliedOnCurves=%r) changed the cubic outline: %r -> %r" % (drop, ref.value, rec.value); break
+                    # the same glyph read through its point protocol and back to segments
+                    if bad is None:
+                        a_ = _Flat(); g.draw(a_, None); b_ = _Flat(); g.drawPoints(PointToSegmentPen(b_), None)
+                        if not _flat_close(sorted(a_.v), sorted(b_.v)):
+                            bad = "F19: Glyph.draw and Glyph.drawPoints (through PointToSegmentPen) give different curves (dropImpliedOnCurves=%r): %r vs %r; contours %r" % (drop, a_.v[:6], b_.v[:6], conts); break
             except Exception as e:
                 bad = "TTGlyph(Point)Pen raised %r on cubic contours %r" % (e, conts)
             yield (("ttglyph-cubic", conts), bad)
@@ -381,4 +394,36 @@ def sweeps(tier, rng):
             yield (("t2pen", icalls), bad)
     return [Sweep("pen-adapters", run_adapters), Sweep("superbezier", run_superbezier), Sweep("glyph-builders", run_glyph_builders)]
 
-def witness(fid): return None
+class _Flat(BasePen):
+    """every contour as a list of elementary segments (super-beziers and quadratic splines decomposed by BasePen)"""
+    def __init__(self): BasePen.__init__(self, None); self.v = []; self.c = None
+    def _moveTo(self, p): self.c = [("m", p)]
+    def _lineTo(self, p): self.c.append(("l", p))
+    def _curveToOne(self, a, b, c): self.c.append(("c", a, b, c))
+    def _qCurveToOne(self, a, b): self.c.append(("q", a, b))
+    def _closePath(self): self.v.append(self.c); self.c = None
+    def _endPath(self): self.v.append(self.c); self.c = None
+def _flat_close(a, b):
+    if len(a) != len(b): return False
+    for x, y in zip(a, b):
+        if len(x) != len(y): return False
+        for s1, s2 in zip(x, y):
+            if s1[0] != s2[0] or len(s1) != len(s2): return False
+            if any(abs(p[0] - q[0]) > 1e-6 or abs(p[1] - q[1]) > 1e-6 for p, q in zip(s1[1:], s2[1:])): return False
+    return True
+
+def classify(sweep, case, failure):
+    # F19: only glyphs whose cubic on-curve points were dropped as implied (four or more cubic off-curve points in a row)
+    if sweep == "glyph-builders" and str(failure).startswith("F19:") and "dropImpliedOnCurves=True" in str(failure): return "F19"
+    return None
+
+def witness(fid):
+    if fid == "F19":
+        from fontTools.pens.ttGlyphPen import TTGlyphPen
+        from fontTools.pens.pointPen import PointToSegmentPen
+        pen = TTGlyphPen(None)
+        pen.moveTo((0, 0)); pen.curveTo((0, 100), (50, 150), (100, 150)); pen.curveTo((150, 150), (200, 100), (200, 0)); pen.lineTo((100, -50)); pen.closePath()
+        g = pen.glyph(dropImpliedOnCurves=True)
+        a = _Flat(); g.draw(a, None); b = _Flat(); g.drawPoints(PointToSegmentPen(b), None)
+        return not _flat_close(a.v, b.v)
+    return None
